@@ -38,6 +38,8 @@ class Opts:
         self.__dict__.update(kw)
 
 
+# names that are prefixes of one another, of the usual names, or of the names the code generator gives its own registers
+PREFIX_NAMES = ["x10", "x12", "xx", "T", "Temporary", "L", "Loo", "Lo", "x00", "y1", "p", "p00"]
 LONG_NAMES = ["a_rather_long_variable_name", "Zwischenergebnis_der_Berechnung_1", "v2345678901234567", "_" * 17]
 
 
@@ -144,6 +146,8 @@ class Gen:
         for i in range(ndefs):
             params = ["p%d" % j for j in range(self.r.randint(0, o.max_params))]
             vars_ = params + LOCALS[: self.r.randint(1, len(LOCALS))]
+            if self.r.random() < 0.15:
+                vars_ = vars_ + self.r.sample(PREFIX_NAMES, 2)
             out = None
             if params and self.r.random() < 0.5:
                 out = self.r.choice(vars_)
@@ -156,6 +160,8 @@ class Gen:
             self.defs.append({"name": name, "params": params, "out": out, "body": b})
         labels = []
         mvars = VARS + ([self.r.choice(LONG_NAMES)] if self.long else [])
+        if self.r.random() < 0.2:
+            mvars = mvars + self.r.sample(PREFIX_NAMES, 2)
         b = self.body(mvars, 0, labels, self.r.randint(*o.main_len))
         self.fix(b, labels)
         if o.init_vars:
@@ -266,4 +272,87 @@ def long_distance_sources(r):
     out.append(("PROGRAM big IN p DO\n%s ;\nx0 := p + 1\nEND\nx := RUN big WITH %d END ;\ny := x" % (body, r.randint(0, 5)), "long-program-body"))
     out.append(("k := %d ;\nIF k = 1 THEN GOTO far ;\n%s ;\nu := 5 ;\nfar : w := k + 1" % (r.randint(0, 1), body), "long-forward-goto"))
     out.append(("k := 0 ;\nback : k := k + 1 ;\n%s ;\nIF k = 1 THEN GOTO back ;\nw := k" % body, "long-backward-goto"))
+    return out
+
+
+class _First:
+    """stands in for the random source when the smallest size of every dimension is wanted"""
+    def __init__(self, r):
+        self.r = r
+
+    def choice(self, xs):
+        return xs[0]
+
+    def __getattr__(self, k):
+        return getattr(self.r, k)
+
+
+def scale_sources(r, which=None, small=False):
+    """sources that are ordinary in every respect but one, which is pushed past 2^8 or 2^16: number of variables, definitions,
+    parameters, labels, nesting depth, call-chain depth, identifier length, statements on one line, arguments of one call,
+    included files, include depth, slots / statements / arguments in a macro use.  -> list of (files, main, kind)"""
+    out = []
+    if small:
+        r = _First(r)
+
+    def add(kind, text, files=None):
+        f = dict(files or {})
+        f["main"] = text
+        out.append((f, "main", "scale-" + kind))
+    n = r.choice([300, 1000, 4000])
+    # (no +/- sugar in the very long sources: every rewrite costs a pass over the whole token stream)
+    add("variables-%d" % n, " ;\n".join("v%d := %d" % (i, i % 7 + 1) for i in range(n)) + " ;\ns := v%d ;\nt := v0 ;\nv%d := s" % (n - 1, n // 2))
+    n = r.choice([260, 300])
+    add("locals-%d" % n, "PROGRAM f IN a DO\n" + " ;\n".join("w%d := a + %d" % (i, i % 5) for i in range(n)) + " ;\nx0 := w%d + 1\nEND\nx := RUN f WITH %d END ;\ny := RUN f WITH x END"
+        % (n - 1, r.randint(0, 3)))
+    n = r.choice([260, 300, 520])
+    defs = "\n".join("PROGRAM f%d IN a DO\nx0 := a + %d\nEND" % (i, i % 5) for i in range(n))
+    add("definitions-%d" % n, defs + "\n" + " ;\n".join("r%d := RUN f%d WITH %d END" % (i, i, i % 3) for i in [0, 1, 127, 128, 129, 255, 256, 257, n - 1]))
+    n = r.choice([130, 260, 300])
+    stop = r.random() < 0.5
+    chain = ["PROGRAM f0 IN a DO\nx0 := a + 1%s\nEND" % (" ;\nSTOP" if stop else "")]
+    for i in range(1, n):
+        chain.append("PROGRAM f%d IN a DO\nt := RUN f%d WITH a END ;\nx0 := t + 1\nEND" % (i, i - 1))
+    add("call-chain-%d%s" % (n, "-stop" if stop else ""), "\n".join(chain) + "\nx := RUN f%d WITH %d END ;\ny := x" % (n - 1, r.randint(0, 2)))
+    n = r.choice([20, 40, 260])
+    ps = ["p%d" % i for i in range(n)]
+    add("parameters-%d" % n, "PROGRAM g IN %s OUT p%d DO\np%d := p%d + 3 ;\np%d := p%d + 1\nEND\n" % (" , ".join(ps), n - 1, n - 1, n - 2, n - 1, n - 1)
+        + "x := RUN g WITH %s END" % " , ".join(str(i + 1) for i in range(n)))
+    n = r.choice([70, 150, 260])
+    add("loop-nesting-%d" % n, "a := 1 ;\n" + "\n".join("LOOP a DO" for _ in range(n)) + "\nc := c + 1\n" + "\n".join("END" for _ in range(n)) + " ;\nd := c")
+    add("while-nesting-%d" % n, "".join("a%d := 1 ;\n" % i for i in range(n)) + "\n".join("WHILE a%d != 0 DO" % i for i in range(n)) + "\nc := c + 1 ;\n"
+        + " ;\n".join("a%d := a%d - 1\nEND" % (i, i) for i in reversed(range(n))) + " ;\nd := c")
+    n = r.choice([260, 300, 1000])
+    order = list(range(n))
+    r.shuffle(order)
+    nxt = {order[j]: order[j + 1] for j in range(n - 1)}
+    add("labels-%d" % n, "GOTO L%d ;\n" % order[0] + " ;\n".join("L%d : a%d := %d ;\n%s" % (i, i % 7, i % 9, "GOTO L%d" % nxt[i] if i in nxt else "GOTO fin") for i in range(n))
+        + " ;\nz := 9 ;\nfin : y := a3")
+    n = r.choice([300, 70000])
+    nm = "v" + "a" * n
+    add("identifier-length-%d" % n, "PROGRAM f%s IN q%s DO\nx0 := q%s + 2\nEND\n%s := 3 ;\n%sb := %s + 1 ;\nz := RUN f%s WITH %sb END" % (nm, nm, nm, nm, nm, nm, nm, nm))
+    n = r.choice([300, 5000])
+    add("statements-on-one-line-%d" % n, " ; ".join("a%d := %d" % (i % 5, i % 7) for i in range(n)) + " ;\nb := a3")
+    n = r.choice([260, 300])
+    files = {"i%d" % i: "k := k + %d ;" % (i % 3) for i in range(n)}
+    add("included-files-%d" % n, "".join('include "i%d"\n' % i for i in range(n)) + "z := k", files)
+    n = r.choice([130, 260])
+    files = {"d%d" % i: 'k := k + 1 ;\ninclude "d%d"\nm := m + 1 ;' % (i + 1) for i in range(n)}
+    files["d%d" % n] = "q := k ;"
+    add("include-depth-%d" % n, 'include "d0"\nz := m', files)
+    # macro uses of unusual size
+    from . import macrosets as MS
+    n = r.choice([40, 260])
+    add("macro-call-arguments-%d" % n, "PROGRAM g IN %s DO x0 := p%d + 1 END\nDEFINE PRIO 30 <ID> ( <ARGS> ) AS RUN $0 WITH $1 END END DEFINE\nx := g ( %s )"
+        % (" , ".join("p%d" % i for i in range(n)), n - 1, " , ".join(str(i + 2) for i in range(n))))
+    n = r.choice([100, 300])
+    add("macro-statement-slot-%d" % n, "DEFINE REPEAT <V> TIMES <P> DONE AS #0 := $0 ; LOOP #0 DO $1 END END DEFINE\nREPEAT 2 TIMES\n"
+        + " ;\n".join("a%d := a%d + %d" % (i % 7, i % 7, i % 3) for i in range(n)) + "\nDONE ;\nz := a0")
+    n = r.choice([30, 70])
+    add("macro-definitions-%d" % n, "\n".join("DEFINE PRIO %d SET%d <ID> AS $0 := %d END DEFINE" % (i % 9, i, i) for i in range(n)) + "\n"
+        + " ;\n".join("SET%d x%d" % (i, i) for i in [0, 1, n // 2, n - 1]))
+    n = r.choice([200, 450])
+    add("macro-uses-%d" % n, "DEFINE INC <ID> AS $0 := $0 + 1 END DEFINE\n" + " ;\n".join("INC a%d" % (i % 5) for i in range(n)) + " ;\nz := a0")
+    if which is not None:
+        out = [o for o in out if which in o[2]]
     return out
